@@ -17,7 +17,7 @@ ASSUMPTIONS = ["'floating-point resolution of L' is read as 1e-9*L (length itsel
                "the no-scipy configuration is run on few cases at scales <= 1e2 in the quick tier (about a second per call)"]
 CONFIGS = ['scipy', 'noscipy']
 BUDGET = {'quick': {'scipy': 800, 'noscipy': 32}, 'thorough': {'scipy': 20000, 'noscipy': 1200}}
-REQUIRED = ['curve:Q', 'curve:C', 'curve:A', 'curve:path', 's:boundary', 's:outside', 's:interior', 'scale>=1e5']
+REQUIRED = ['curve:Q', 'curve:C', 'curve:A', 'curve:path', 's:boundary', 's:outside', 's:interior', 'scale>=1e5', 'requested_s_tol', 'path_edited_after_queries', 'path_with_equal_segments']
 CASE_TIMEOUT = 200
 TIME_LIMIT = {'quick': 280, 'thorough': 2400}
 
@@ -47,8 +47,41 @@ def strategy(tier, config):
         fr = draw(st.lists(st.one_of(gen.floats_in(0.0, 1.0), st.sampled_from([0.5, 0.25, 2.0 ** -10, 2.0 ** -30, 1 - 2.0 ** -20])),
                            min_size=ns, max_size=ns))
         bsel = draw(st.lists(st.tuples(st.integers(0, 3), st.integers(-1, 1)), min_size=1, max_size=2))
-        return {'kind': kind, 'scale': scale, 'segs': specs, 'fr': fr, 'bsel': [list(b) for b in bsel]}
+        if kind == 'path' and draw(st.integers(0, 4)) == 0:
+            # a retraced stroke: a segment equal to an earlier one appears again later in the path
+            j = draw(st.integers(0, len(specs) - 1))
+            specs = specs + [[specs[j][0]] + [list(p) if isinstance(p, (list, tuple)) else p for p in specs[j][1:]]]
+        return {'kind': kind, 'scale': scale, 'segs': specs, 'fr': fr, 'bsel': [list(b) for b in bsel],
+                'stol': draw(st.sampled_from([None, None, None, 1e-3, 1e-6, 1e-9])), 'via': draw(st.integers(0, 7))}
     return s()
+
+
+def _build_path_via(case, ctx, specs):
+    """the Path under test is built directly or reaches its final segments through edits made after its lengths were queried"""
+    from svgpathtools import Path, Line
+    via = case.get('via', 0)
+    segs = [gen.build_seg(sp) for sp in specs]
+    if via < 4 or len(segs) < 2:
+        return ctx.lib('build', Path, *segs)
+    ctx.count('path_edited_after_queries')
+    other = Line(segs[-1].start, segs[-1].start + complex(1, 2) * case['scale'])
+    if via == 4:
+        p = Path(*segs[:-1])
+        ctx.lib('warm', p.length)
+        p.append(segs[-1])
+    elif via == 5:
+        p = Path(*(segs[:-1] + [other]))
+        ctx.lib('warm', p.ilength, ctx.lib('warm', p.length) / 3)
+        p[-1] = segs[-1]
+    elif via == 6:
+        p = Path(*(segs + [other]))
+        ctx.lib('warm', p.length)
+        del p[-1]
+    else:
+        p = Path(*segs[1:])
+        ctx.lib('warm', p.point, 0.5)
+        p.insert(0, segs[0])
+    return p
 
 
 def check(case, ctx):
@@ -56,7 +89,9 @@ def check(case, ctx):
     specs = case['segs']
     kind = case['kind']
     if kind == 'path':
-        curve = ctx.lib('build', gen.build_path, specs)
+        curve = _build_path_via(case, ctx, specs)
+        if any(a == b for i, a in enumerate(curve) for b in curve[i + 1:]):
+            ctx.count('path_with_equal_segments')
     else:
         curve = ctx.lib('build', gen.build_seg, specs[0])
     ctx.count('curve:' + kind)
@@ -64,10 +99,20 @@ def check(case, ctx):
         ctx.count('scale>=1e5')
     with warnings.catch_warnings():
         warnings.simplefilter('ignore')
-        L = float(ctx.lib('length', curve.length))
+        L = ctx.lib('length', curve.length)
+        try:
+            L = float(L)
+        except Exception:
+            ctx.fail('length_not_a_number', 'length() of %s returned %r, so no s can be inverted' % (kind, L))
         if not (math.isfinite(L) and L > 0):
             ctx.discard('length not positive/finite (C06)')
         tol = max(1e-12, 1e-9 * L)
+        kw = {}
+        if case.get('stol'):
+            # an explicitly requested tolerance (relative to L here) is what the result has to meet
+            kw = {'s_tol': case['stol'] * L}
+            tol = max(tol, case['stol'] * L)
+            ctx.count('requested_s_tol')
         # length() itself is only piecewise consistent where the speed (nearly) vanishes: numerical integration of |B'| across
         # a (near-)cusp is accurate to ~1e-5 (C06 allows 5e-3 there, and records KF03), and length(0, t) then jumps by that
         # much as t crosses the cusp, so no parameter can invert it more finely
@@ -112,7 +157,7 @@ def check(case, ctx):
                 ctx.count('s:interior')
                 if not (kind == 'L'):
                     ctx.nontrivial(key=[specs, s])
-            t = ctx.lib('ilength/%s/%s' % (kind, cls), curve.ilength, s)
+            t = ctx.lib('ilength/%s/%s' % (kind, cls), curve.ilength, s, **kw)
             try:
                 t = float(t)
             except Exception:
